@@ -107,7 +107,71 @@ def Statement_gen_yields_all_when_dry : Prop :=
     ops.any isForce = false → ((Multi.lazy full).run ops).1.pending = [] →
       genYields ((Multi.lazy full).run ops).2 = full.filter rowBound
 
+/-! ### Statements, text level (round g) -/
+
+/-- JSON strings: `json.loads`' string scanner (`scanstring`, strict) recovers every string from EVERY RFC 8259
+    spelling of it — per character raw, two-character escape, `\/`, `\uXXXX` in either case, a surrogate pair above
+    U+FFFF; control characters, quotes, backslashes, non-BMP characters included — whatever follows the closing quote. -/
+def Statement_json_text_roundtrip : Prop :=
+  ∀ (ks : List Nat) (s rest : Str), jsonScan (jsonSpell ks s ++ '"' :: rest) = .ok (s, rest, false)
+
+/-- … in particular what Python's two encoders write — `encode_basestring` (`ensure_ascii=False`, what rdflib's
+    writer passes) and `encode_basestring_ascii` (the `json.dumps` default) — for every string: cell values,
+    variable names, keys. -/
+def Statement_json_py_text_roundtrip : Prop :=
+  ∀ (ascii : Bool) (s : Str), jsonLoadsStr (pyDumpsStr ascii s) = .ok s
+
+/-- CSV text: Python's `csv.reader` (the `_csv.c` state machine over the lines of a `newline=""` source) recovers EVERY
+    field table — any number of rows and fields, zero included, any characters: delimiters, quotes, CR, LF, CR LF inside
+    fields, empty fields, the record that is one empty field — from what `csv.writer` writes (QUOTE_MINIMAL, doubled
+    quotes, CR LF), and from every other RFC 4180 rendering: fields quoted without need, bare LF line ends. -/
+def Statement_csv_text_roundtrip : Prop :=
+  ∀ (qss : List (List Bool)) (lf : Bool) (t : List (List Str)), csvParse (csvRender qss lf t) = .ok t
+
+/-- … hence rdflib's CSV writer and reader composed through the TEXT behave exactly as the field-table model that
+    `csv_preserves` is about: nothing is lost or altered by quoting (known lossy cases are those of `csv_preserves`:
+    a blank node comes back labelled `_:label`, IRIs outside http(s) and typed / tagged literals come back as plain
+    literals with the same string value). -/
+def Statement_csv_text_preserves : Prop :=
+  (∀ r, csvTextRoundTrip r = csvRoundTrip r) ∧
+  ∀ vars rows, (∀ r ∈ rows, r.length = vars.length) →
+    ∃ f : Cell → Cell, (∀ c, cellStr (f c) = csvSpec c) ∧
+      csvTextRoundTrip (.select vars rows) = .ok (.select vars (rows.map (fun r => r.map f)))
+
+/-- XML character data: what `SPARQLXMLWriter._characters` / `XMLGenerator.characters` write for a string (`&amp;`
+    `&lt;` `&gt;`, carriage return as `&#13;`) is delivered unchanged by an XML 1.0 parser (references, end-of-line
+    normalisation, the `Char` range, no `]]>`), for every string XML can carry — lexical forms, IRIs, labels. -/
+def Statement_xml_chardata_roundtrip : Prop :=
+  ∀ (s rest : Str), s.all xmlChar = true → xmlReadContent (xmlWriteText s ++ '<' :: rest) = some (s, '<' :: rest)
+
+/-- XML attribute values: what `quoteattr` writes (tab, LF, CR as character references; the quote character chosen by
+    what the value holds, `&quot;` when it holds both) is delivered unchanged after attribute-value normalisation —
+    variable names, datatype IRIs, language tags. -/
+def Statement_xml_attr_roundtrip : Prop :=
+  ∀ (s rest : Str), s.all xmlChar = true → xmlReadAttr (quoteattr s ++ rest) = some (s, rest)
+
+/-- `serialize(format="xml", encoding=E)`: whatever the encoding can spell (`enc`, any predicate), character data written
+    by `_characters` and re-spelled by `XMLGenerator`'s `xmlcharrefreplace` error handler (`&#N;` for every character the
+    encoding lacks) is delivered unchanged. -/
+def Statement_xml_chardata_any_encoding : Prop :=
+  ∀ (enc : Char → Bool) (s rest : Str), s.all xmlChar = true →
+    xmlReadContent (xmlWriteTextEnc enc s ++ '<' :: rest) = some (s, '<' :: rest)
+
 /-! ### Theorems -/
+
+theorem json_text_roundtrip : Statement_json_text_roundtrip := fun ks s rest => jsonScan_jsonSpell ks s rest
+
+theorem json_py_text_roundtrip : Statement_json_py_text_roundtrip := fun a s => jsonLoadsStr_pyDumpsStr a s
+
+/-- non-vacuity / regression anchors of the text level: a string with a quote, a backslash, a control character, a
+    line feed, U+007F, a Latin-1 and a non-BMP character, in Python's two spellings -/
+example : pyDumpsStr false ['a', '"', '\\', '\x01', '\n', '\x7f', 'é', Char.ofNat 0x1F600]
+    = "\"a\\\"\\\\\\u0001\\n\x7fé😀\"".toList := by decide
+example : pyDumpsStr true ['a', '"', '\\', '\x01', '\n', '\x7f', 'é', Char.ofNat 0x1F600]
+    = "\"a\\\"\\\\\\u0001\\n\\u007f\\u00e9\\ud83d\\ude00\"".toList := by decide
+/-- a lone surrogate escape is outside the model, an unknown escape is an error -/
+example : (jsonLoadsStr ['"', '\\', 'u', 'd', '8', '3', 'd', '"'] matches .error .unmodelled) = true := by decide
+example : (jsonLoadsStr ['"', '\\', 'x', '4', '1', '"'] matches .error .value) = true := by decide
 
 theorem bindings_complete_interleaved : Statement_bindings_complete_interleaved := by
   intro full ops
@@ -197,6 +261,27 @@ theorem tsv_old_reader_drops_unbound_rows :
     readTsvOld (render [] [['a'], ['b']] [[none, none], [some (.iri ['x']), some (.iri ['y'])]])
       = .ok (.select [['a'], ['b']] [[some (.iri ['x']), some (.iri ['y'])]]) := by rfl
 
+theorem xml_chardata_roundtrip : Statement_xml_chardata_roundtrip :=
+  fun s rest h => readText_writeText s h 0 rest
+
+theorem xml_attr_roundtrip : Statement_xml_attr_roundtrip := fun s rest h => xmlReadAttr_quoteattr s h rest
+
+theorem xml_chardata_any_encoding : Statement_xml_chardata_any_encoding :=
+  fun enc s rest h => readText_writeTextEnc enc s h 0 rest
+
+/-- known finding C16-K1 at the text level: the writer has no spelling for U+0001, the document is not well-formed -/
+theorem xml_chardata_witness : xmlReadContent (xmlWriteText ['\x01'] ++ ['<']) = none := by decide
+
+/-- without the `&#13;` of `_characters` a carriage return comes back as a line feed (regression anchor of C16-F3) -/
+theorem xml_chardata_raw_cr : xmlReadContent ['a', '\r', 'b', '<'] = some (['a', '\n', 'b'], ['<']) := by decide
+
+/-- the three quoting branches of `quoteattr` -/
+example : quoteattr ['a', '<', '\n'] = "\"a&lt;&#10;\"".toList := by decide
+example : quoteattr ['a', '"'] = "'a\"'".toList := by decide
+example : quoteattr ['\'', '"'] = "\"'&quot;\"".toList := by decide
+
+theorem csv_text_roundtrip : Statement_csv_text_roundtrip := csvParse_csvRender
+
 theorem csv_preserves : Statement_csv_preserves := by
   intro vars rows h
   refine ⟨fun c => csvConvert (csvField c), ?_, csvRoundTrip_select vars rows h⟩
@@ -205,6 +290,14 @@ theorem csv_preserves : Statement_csv_preserves := by
   cases c with
   | none => rfl
   | some t => cases t <;> rfl
+
+theorem csv_text_preserves : Statement_csv_text_preserves :=
+  ⟨csvTextRoundTrip_eq, fun vars rows h => by rw [csvTextRoundTrip_eq]; exact csv_preserves vars rows h⟩
+
+/-- the writer on a record with a delimiter, a quote, a line break, an empty field; the record of one empty field; the
+    empty record -/
+example : csvWrite [[['a', ','], ['"'], ['\r', '\n'], []], [[]], []]
+    = "\"a,\",\"\"\"\",\"\r\n\",\r\n\"\"\r\n\r\n".toList := by decide
 
 /-! ### Non-vacuity: the hypotheses are met by concrete, non-trivial tables -/
 
